@@ -92,6 +92,9 @@ Inductive c14_obs :=
 Definition ranges_eqb (a b:list (N * N)) : bool :=
   list_eqb (fun x y => (fst x =? fst y) && (snd x =? snd y)) a b.
 
+(* wire compression only: the as_sql text is given as (length of its common prefix with the compiled text, the rest) *)
+Definition out_sql_pre (compiled:str) (k:nat) (suffix:str) : c14_out := OutSql compiled (firstn k compiled ++ suffix).
+
 Definition out_eqb (a b:c14_out) : bool :=
   match a, b with
   | OutSql x y, OutSql x' y' => str_eqb x x' && str_eqb y y'
